@@ -20,7 +20,7 @@ from __future__ import annotations
 
 import numpy as np
 
-S_KINDS = {"var", "elem", "melem", "const", "param", "bin", "un", "vsum", "vector_sum", "dot", "dotself",
+S_KINDS = {"var", "elem", "melem", "const", "param", "vparam_elem", "bin", "un", "vsum", "vector_sum", "dot", "dotself",
            "lincomb", "norm", "quad", "msum", "fro", "trace"}
 V_KINDS = {"view", "vvar", "slice", "row", "col", "diag", "vbin", "vneg", "vfn", "vpow", "matvec",
            "mvarvec", "vexpr"}
@@ -182,6 +182,9 @@ class ElemAlg:
 
     def n_param(self, name):
         return self.sc.param(name)
+
+    def n_vparam_elem(self, name, i):
+        return self.sc.param(f"{name}[{i}]")
 
     def n_elem(self, V, i):
         return self.ev(V)[i]
@@ -409,8 +412,12 @@ class BuildAlg:
                          for m in env["matrices"]}
         if params_as_constants:
             self.params = {p["name"]: Constant(p["value"]) for p in env.get("params", [])}
+            self.vparams = {p["name"]: [Constant(v) for v in p["values"]] for p in env.get("vparams", [])}
         else:
+            from optyx import VectorParameter
             self.params = {p["name"]: Parameter(p["name"], p["value"]) for p in env.get("params", [])}
+            self.vparams = {p["name"]: VectorParameter(p["name"], len(p["values"]), values=list(p["values"]))
+                            for p in env.get("vparams", [])}
 
     # name -> Variable object for every declared element
     def var_objects(self):
@@ -437,6 +444,9 @@ class BuildAlg:
 
     def n_param(self, name):
         return self.params[name]
+
+    def n_vparam_elem(self, name, i):
+        return self.vparams[name][i]
 
     def n_elem(self, V, i):
         return self.ev(V)[i]
